@@ -470,6 +470,7 @@ type FuncSpec struct {
 	Notes    []string
 	AtRet    []*GhostStmt
 	OnAppend []*AppendSpec
+	IfaceAssumed []string // labels of interface-contract clauses that are definitional for this implementation (assumed at its returns, not proved)
 	SplitLatch bool // invariant preservation is checked per path into the loop latch, not on the merged state
 }
 
@@ -674,7 +675,7 @@ func loadSpecs(repo, verifDir string) (*Specs, error) {
 		}
 	}
 	for _, sf := range []string{"le(B,B) Bool", "lt(B,B) Bool", "pre(B,B) Bool", "cat(B,B) B", "blen(B) Int", "cmp(B,B) Int", "dyn(Int) Int", "kindcode(Any) Int",
-		"trim(B) B", "lead(B) Int", "trail(B) Int", "sub(B,Int,Int) B", "at(B,Int) Int", "chr(Int) B", "lower(B) B", "upper(B) B", "itoa(Int) B", "parseInt(B) Int", "parseIntOk(B) Bool", "parseFloatOk(B) Bool", "parseFloat(B) F64",
+		"trim(B) B", "lead(B) Int", "trail(B) Int", "sub(B,Int,Int) B", "at(B,Int) Int", "chr(Int) B", "lower(B) B", "upper(B) B", "itoa(Int) B", "parseInt(B) Int", "parseIntOk(B) Bool", "parseFloatOk(B) Bool", "parseFloat(B) F64", "tdiv(Int,Int) Int", "tmod(Int,Int) Int",
 		"flt(F64,F64) Bool", "fle(F64,F64) Bool", "feq(F64,F64) Bool", "fadd(F64,F64) F64", "fsub(F64,F64) F64", "fmul(F64,F64) F64", "fdiv(F64,F64) F64", "i2f(Int) F64", "f2i(F64) Int"} {
 		f, _ := parseSpecFunSig(sf)
 		sp.SpecFuns[f.Name] = f
@@ -886,6 +887,8 @@ func (sp *Specs) parseFile(path string) error {
 						cur.Assigns = append(cur.Assigns, e)
 					}
 				}
+			case "ifaceassumed":
+				cur.IfaceAssumed = append(cur.IfaceAssumed, strings.Fields(strings.ReplaceAll(rest, ",", " "))...)
 			case "splitlatch":
 				cur.SplitLatch = true
 			case "pure":
